@@ -500,12 +500,12 @@ func families(thorough bool) []family {
 	}
 	nb := bodiesUpTo(maxBody)
 	var fs []family
-	fs = append(fs, family{name: "wire", count: nb, chunk: 4096, get: func(i int64) tcase {
+	fs = append(fs, family{name: "wire", count: nb, chunk: 2048, get: func(i int64) tcase {
 		b := bodyAt(i)
 		return tcase{Family: "wire", Kind: "raw body", Desc: fmt.Sprintf("raw message body % x", b),
 			Msgs: []wmsg{{Body: b, Desc: fmt.Sprintf("raw % x", b), Type: "RAW", ValidReq: -1, ValidWrite: -1}}}
 	}})
-	fs = append(fs, family{name: "hsraw", count: nb, chunk: 8192, get: func(i int64) tcase {
+	fs = append(fs, family{name: "hsraw", count: nb, chunk: 4096, get: func(i int64) tcase {
 		b := bodyAt(i)
 		return tcase{Family: "hsraw", Kind: "raw handshake body", Desc: fmt.Sprintf("raw handshake body % x", b), HS: b, HSDesc: fmt.Sprintf("raw % x", b)}
 	}})
